@@ -133,8 +133,11 @@ def build_obligation(inst):
             else:
                 r = op(tx)
                 union = OrderedDict(ins1)
-            pairs = [(_b(mk, isinstance(r, Tensor) and set(r.inputs) == set(union) and r.output == Real), None)]
-            if not (isinstance(r, Tensor) and set(r.inputs) == set(union)):
+            # to_funsor drops named batch dims of size 1 (the value cannot depend on them)
+            need = {k for k, n in union.items() if n != 1}
+            okin = isinstance(r, Tensor) and need <= set(r.inputs) <= set(union)
+            pairs = [(_b(mk, okin and r.output == Real), None)]
+            if not okin:
                 return pairs
             xa = X.view(np.ndarray)
             got, exp = [], []
@@ -166,7 +169,12 @@ def build_obligation(inst):
             Z = mk.array("z", (), "real")
             t = Tensor(X, OrderedDict((n, Bint[s_]) for n, s_ in zip(names, sizes)))
             s_t = Tensor(S, OrderedDict((n, Bint[s_]) for n, s_ in zip(names, sizes)))
-            g = (t + Variable("z", Real)).align(tuple(names[i] for i in perm))      # stays lazy: an Align term
+            from funsor.terms import Align
+            target = tuple(names[i] for i in perm)
+            g = (t + Variable("z", Real)).exp().align(("z",) + target)      # stays lazy: an Align term
+            if not isinstance(g, Align):
+                from harness.oblig import Decline
+                raise Decline("align did not produce an Align term")
             op = getattr(ops, opname)
             r = op(s_t, g) if side == "right" else op(g, s_t)
             r = r(z=Tensor(Z))
@@ -175,7 +183,7 @@ def build_obligation(inst):
             got, exp = [], []
             for pt in itertools.product(*(range(n) for n in sizes)):
                 env = dict(zip(names, pt))
-                gv = xa[pt] + zc
+                gv = C.UNARY["exp"](xa[pt] + zc)
                 exp.append(f2(sa[pt], gv) if side == "right" else f2(gv, sa[pt]))
                 got.append(result_cells(r, env)[()])
             return [(got, exp)]
